@@ -96,6 +96,14 @@ class Blocks(ArrayExpr):
         index_maps = [np.arange(n)[idx] for n, idx in zip(self.array.numblocks, self.index)]
         return BlocksLayer(self._name, self.array._name, index_maps)
 
+    @functools.cached_property
+    def transfer_bytes(self):
+        # Pure alias routing (each output block IS an input block, see _layer)
+        # -- schedulers resolve aliases without moving data.
+        from dask_array._expr import TransferBytes
+
+        return TransferBytes(0.0, 0.0)
+
     def _layer(self) -> dict:
         """Generate the task graph layer.
 
